@@ -26,8 +26,3 @@ pub(crate) fn enc_rle(vals: &[u8]) -> Vec<u8> {
     }
     e.to_vec()
 }
-
-/// the "rest" section of a v2 encoder (where the delete set goes), without the column framing
-pub(crate) fn v2_rest(e: EncoderV2) -> Vec<u8> {
-    e.buf
-}
